@@ -11,6 +11,9 @@ C09 driver ops (see harness/rt/context.go for the real side):
   c9srv <wire> <ctr>                   ReadRequestHeader over the bytes with the op id counter at ctr
   c9hdl <resp> <R>                     handler AddResponseHeader for each of R
   c9rsp <wire> <resp>                  ReadResponseHeader into a context whose response headers are resp
+  c9srvd/c9rspd … <k>                  c9srv/c9rsp over a reader that hands out at most k bytes per Read
+  c9e2e <cid> <tr> <opid> <ns> <ctr> <U> <R>   a whole call over the named real transport
+  c9ids <who> <n> <ctr>                the n op ids issued (concurrently) from counter value ctr
   c9mar <wire> <map>                   the header bytes written for a context's request/response map
   c9tmo <value|none>                   Timeout() of a context whose _timeout header is value / missing
 -/
@@ -36,6 +39,27 @@ def stepContext (op : String) (args : List String) : Option String :=
     pure (showRes (fun (c, rest) =>
       s!"ok req={pairsOf c.req} resp={pairsOf c.resp} cid={hexOf c.correlationID} timeout={c.timeout} opid={showOpId c} rest={hexOf rest}") r
       ++ s!" ctr={ctrAfterRead wire ctr}")
+  | "c9srvd", [wire, ctr, _k] =>
+    -- the same bytes delivered by a reader that returns at most k bytes per Read: the model reads a
+    -- byte string, so the result cannot depend on the chunking
+    stepContext "c9srv" [wire, ctr]
+  | "c9rspd", [wire, resp, _k] => stepContext "c9rsp" [wire, resp]
+  | "c9e2e", [cid, _tr, opid, ns, ctr, u, r] => do
+    let cid ← unhex cid
+    let opid ← opid.toNat?
+    let ns ← ns.toInt?
+    let ctr ← ctr.toNat?
+    let u ← parsePairs u
+    let r ← parsePairs r
+    pure (showRes (fun (s, cc) =>
+      s!"ok req={pairsOf s.req} resp={pairsOf s.resp} cid={hexOf s.correlationID} timeout={s.timeout} after={pairsOf cc.resp}")
+      (callThrough cid opid u ns ctr r))
+  | "c9ids", [_who, n, ctr] => do
+    let n ← n.toNat?
+    let ctr ← ctr.toNat?
+    let ids := (issuedIds ctr n).mergeSort (fun a b => !bytesLt b a)
+    let distinct := (ids.zip (ids.drop 1)).foldl (fun acc ab => if ab.1 == ab.2 then acc else acc + 1) (if ids.isEmpty then 0 else 1)
+    pure s!"ok n={n} distinct={distinct} first={ctr + 1} last={ctr + n} ctr={ctr + n}"
   | "c9hdl", [resp, r] => do
     let resp ← parsePairs resp
     let r ← parsePairs r
